@@ -702,6 +702,77 @@ func checkPolicyReadOnly(e *Env, p *load.Program, rule string) {
 		bad++
 		r.Unknown(rule, key, p.Pos(u.Instr.Pos()), u.What)
 	}
+	// the other half of "a function of the policy": a package-level variable that the compile path *reads* is written by
+	// nothing but the package initialisation - not by an exported setter, a test hook compiled into the library, or the
+	// loader (`SetDenyErrno(n)` feeding the return builder would make equal policies compile to different programs)
+	{
+		reads := map[*ssa.Global]bool{}
+		for f := range a.Funcs {
+			for _, b := range f.Blocks {
+				for _, in := range b.Instrs {
+					var ops []*ssa.Value
+					for _, op := range in.Operands(ops) {
+						if g, ok := (*op).(*ssa.Global); ok && g.Pkg != nil && strings.HasPrefix(g.Pkg.Pkg.Path(), load.Module) {
+							reads[g] = true
+						}
+					}
+				}
+			}
+		}
+		rootOf := func(v ssa.Value) *ssa.Global {
+			for i := 0; i < 8; i++ {
+				switch x := v.(type) {
+				case *ssa.Global:
+					return x
+				case *ssa.FieldAddr:
+					v = x.X
+				case *ssa.IndexAddr:
+					v = x.X
+				case *ssa.UnOp:
+					v = x.X
+				default:
+					return nil
+				}
+			}
+			return nil
+		}
+		isInit := func(f *ssa.Function) bool {
+			for f != nil && f.Parent() != nil {
+				f = f.Parent()
+			}
+			return f != nil && (f.Name() == "init" || strings.HasPrefix(f.Name(), "init#"))
+		}
+		nW := 0
+		for _, f := range all {
+			if isInit(f) {
+				continue
+			}
+			for _, b := range f.Blocks {
+				for _, in := range b.Instrs {
+					var g *ssa.Global
+					what := ""
+					switch x := in.(type) {
+					case *ssa.Store:
+						g, what = rootOf(x.Addr), "store"
+					case *ssa.MapUpdate:
+						g, what = rootOf(x.Map), "map update"
+					}
+					if g == nil || !reads[g] {
+						continue
+					}
+					key := load.FuncName(f) + "/writes-compile-input/" + g.Name()
+					if seen[key] {
+						continue
+					}
+					seen[key] = true
+					nW++
+					bad++
+					r.Bad(rule, key, p.Pos(in.Pos()), fmt.Sprintf("%s to the package-level variable %s in %s, outside the package initialisation: the compile path reads %s, so what is emitted for a policy depends on calls made before - equal policies can compile to different programs", what, g.Name(), load.FuncName(f), g.Name()))
+				}
+			}
+		}
+		r.Count("package-level variables the compile path reads", len(reads))
+	}
 	if bad == 0 {
 		r.OK(rule, "policy-not-written-while-compiled", "", fmt.Sprintf("%d stores/map updates/appends in %d functions reachable from the compile entry points: none may write memory reachable from the policy or package-level state", a.NStores, len(a.Funcs)))
 	}
